@@ -55,6 +55,7 @@ DATES = [(2019, 1, 1), (2019, 12, 31), (2024, 12, 31), (2024, 2, 29), (2019, 7, 
 CLOCKS = [[y, mo, d, h, mi, s, us] for (h, mi, s) in TIMES for us in MICROS for (y, mo, d) in DATES]
 NC = len(CLOCKS)
 EDIT_FN = {'stns': 'remove_stns_sinex', 'velocity': 'remove_velocity_sinex', 'zeros': 'remove_matrixzeros_sinex'}
+COPIED_BLOCKS = ('FILE/COMMENT', 'SITE/ID', 'SOLUTION/EPOCHS', 'SOLUTION/ESTIMATE', 'SOLUTION/MATRIX_ESTIMATE')
 CREATED_BY = '* File created by Geodepy'
 TIME_TOKEN = re.compile(r'\d\d:\d\d\d:\d+')
 
@@ -77,7 +78,9 @@ def _gen(seed, k, nst, nsol, vel, tri, expo, zero='dense'):
     dag = sx.AGENCIES[(3 * k + 1 + seed) % len(sx.AGENCIES)]
     return {'fseed': '%s-%s-%s' % (ID, seed, 'f%d' % k), 'nst': nst, 'nsol': nsol, 'vel': bool(vel), 'tri': tri, 'expo': expo,
             'agency': ag, 'dagency': dag, 'cstyle': ['star', 'blank', 'none'][(k + seed) % 3], 'zero': zero,
-            'order': 'by-solution' if (nsol > 1 and nst > 1 and (k + seed) % 3 == 1) else 'grouped'}
+            'order': 'by-solution' if (nsol > 1 and nst > 1 and (k + seed) % 3 == 1) else 'grouped',
+            'lay': ['std', 'std', 'std', 'nohdr', 'extra', 'std', 'mid', 'blocks'][(k + 2 * seed) % 8],
+            'eol': 'crlf' if (k + seed) % 11 == 5 else 'lf'}
 
 
 def _nsubsets(f):
@@ -426,6 +429,21 @@ def judge_zero_lines(ctx, V, m, in_lines, p):
         exp.append((ln, cur or 'top-level', kind))
         if ln.startswith('-'):
             cur = None
+    # known finding (known_findings.txt): the editing functions re-assemble the file from the five blocks they know
+    # (FILE/COMMENT, SITE/ID, SOLUTION/EPOCHS, SOLUTION/ESTIMATE, SOLUTION/MATRIX_ESTIMATE); every other block of the input is
+    # dropped.  Classifier: ALL lines of such a block are absent from the output; a block that comes through in part is judged
+    # line by line like every other line.
+    out_set = set(p.lines[1:])
+    other = {}
+    for ln, blk, kind in exp:
+        if blk not in COPIED_BLOCKS and blk != 'top-level':
+            other.setdefault(blk, []).append(ln)
+    dropped = sorted(b for b, ls in other.items() if not any(x in out_set for x in ls))
+    if dropped:
+        ctx.count('zeros_other_blocks_dropped', len(dropped))
+        V('other-blocks-dropped', {'blocks_of_the_input_missing_from_the_output': dropped,
+                                   'lines_missing': sum(len(other[b]) for b in dropped)})
+        exp = [e for e in exp if e[1] not in dropped]
     j = 0
     compared = 0
     stopped = False
@@ -719,8 +737,11 @@ def run_file(h, ctx, f, seed, rnd, tmp):
     m = sx.make_model(f['gen'])
     lines = sx.write_lines(m)
     inpath = os.path.join(tmp, 'input-%s.snx' % f['gen']['fseed'])
+    eol = '\r\n' if f['gen'].get('eol') == 'crlf' else '\n'
     with open(inpath, 'w', newline='') as fh:
-        fh.write('\n'.join(lines) + '\n')
+        fh.write(eol.join(lines) + eol)
+    ctx.count('input_files_layout:' + f['gen'].get('lay', 'std'))
+    ctx.count('input_files_line_ending:' + f['gen'].get('eol', 'lf'))
     g = f['gen']
     e = f.get('clock0', 0)
     first = True
